@@ -298,6 +298,7 @@ def c02(ctx):
     schema.table_bits(ctx)
     schema.gate_opt(ctx)
     schema.ins1(ctx)
+    schema.info_schema(ctx)
     schema.table_clsid(ctx)
     from .rules import propset, streams, flush
     propset.run(ctx)
